@@ -101,7 +101,8 @@ def judge(r, case):
         k = san_key(rep)
         if k not in seen:
             seen.add(k)
-            viol.append(dict(key=k, what=rep["line"] + " stack=" + ",".join(rep.get("stack", [])[:6])))
+            # the report site identifies the root cause: no configuration tag on these keys
+            viol.append(dict(key=k, what=rep["line"] + " stack=" + ",".join(rep.get("stack", [])[:6]), tagged=1))
     if r.hang:
         if r.hang.get("hang") == "deadlock":
             viol.append(dict(key="C11|deadlock|" + str(r.hang.get("where")), what="deadlock signature: %s" % r.hang))
